@@ -488,6 +488,11 @@ fn gen_program(r: &mut Rng) -> Gen {
     let mut fns: Vec<String> = vec![]; // 'int -> 'int
     let mut unions: Vec<String> = vec![]; // 'int | Str | Point
     let mut feats: Vec<&'static str> = vec![];
+    // type aliases (they must precede every step) and definitions that nothing refers to; both are put
+    // BEFORE the live definitions, so that the types they register get the small ids and every live
+    // type is renumbered by the sweep
+    let mut front: Vec<String> = vec![];
+    let mut dead_first: Vec<String> = vec![];
     let n = 3 + r.usize(8);
     let mut k = 0;
     let mut fresh = |p: &str| {
@@ -632,8 +637,161 @@ fn gen_program(r: &mut Rng) -> Gen {
             }
         }
     }
-    // final expression
     let mut parts: Vec<String> = vec![];
+    let mut zoo_lit = String::new();
+
+    // ---- type zoo: a reachable type of every constructor whose contents are renumbered by the sweep ----
+    // (dead aliases / dead functions first, mentioning tuple types of their own; then live partial types,
+    // partial parameters, `=(x)` patterns, type tests against partial / callable / recursive / generic /
+    // union-in-field types over a tuple type `Cel…` that is registered after the dead ones)
+    let mut zoo_process = false;
+    if r.chance(3, 5) {
+        for _ in 0..(1 + r.usize(3)) {
+            let d = fresh("Dz");
+            match r.below(6) {
+                0 => front.push(format!("'{} = {d}['bin, {d}b['int]]", d.to_lowercase())),
+                1 => dead_first.push(format!("{} = #{d}['bin, {d}b['int]] {{ 1 }}", d.to_lowercase())),
+                2 => front.push(format!("'{} = @{d}['int]", d.to_lowercase())),
+                3 => front.push(format!("'{} = #{d}['int] -> {d}r['bin]", d.to_lowercase())),
+                4 => front.push(format!("'{} = {d}n | {d}c[{d}e['int], ^]", d.to_lowercase())),
+                _ => dead_first.push(format!("{} = #({}: {d}['int]) {{ {d}q[$, \"{}\"] }}", d.to_lowercase(), *r.pick(&["x", "q"]), d)),
+            }
+        }
+        feats.push("dead-types-first");
+        // the live tuple type the zoo's types are built over
+        let cel = fresh("Cel");
+        let inner = *r.pick(&["'int", "'int", "'bin"]);
+        let (lit, other) = if inner == "'int" { (format!("{}", r.range(1, 9)), "0xff") } else { ("0x0a".to_string(), "7") };
+        let other_ty = if inner == "'int" { "'bin" } else { "'int" };
+        for _ in 0..(1 + r.usize(3)) {
+            let k = r.below(13);
+            let a = fresh("Az");
+            match k {
+                0 => {
+                    // partial PARAMETER
+                    let g = fresh("gp");
+                    defs.push(format!("{g} = #(x: {cel}[{inner}]) {{ $.x.0 }}"));
+                    let v = fresh("zv");
+                    defs.push(format!("{v} = {a}[x: {cel}[{lit}], y: {}] {g}", r.pick(&ints)));
+                    parts.push(v);
+                    feats.push("zoo:partial-parameter");
+                }
+                1 => {
+                    // type test against an unnamed partial type through an alias
+                    let h = fresh("hx");
+                    front.push(format!("'{h} = (x: {cel}[{inner}])"));
+                    let f = fresh("fp");
+                    defs.push(format!("{f} = #({a}[x: {cel}[{inner}]] | {a}[x: {other_ty}]) {{ ='{h} => 1 | 0 }}"));
+                    parts.push(format!("{a}[x: {cel}[{lit}]] {f}"));
+                    parts.push(format!("{a}[x: {other}] {f}"));
+                    feats.push("zoo:partial-type-test");
+                }
+                2 => {
+                    // NAMED partial type
+                    let h = fresh("np");
+                    front.push(format!("'{h} = {a}(x: {cel}[{inner}])"));
+                    let f = fresh("fp");
+                    defs.push(format!("{f} = #({a}[x: {cel}[{inner}], y: 'int] | B{a}[x: {other_ty}]) {{ ='{h} => 1 | 0 }}"));
+                    parts.push(format!("{a}[x: {cel}[{lit}], y: 2] {f}"));
+                    parts.push(format!("B{a}[x: {other}] {f}"));
+                    feats.push("zoo:named-partial-type-test");
+                }
+                3 => {
+                    parts.push(format!("{a}[x: {cel}[{lit}], y: 2] {{ | =(x) => x.0 | 0 }}"));
+                    feats.push("zoo:partial-pattern");
+                }
+                4 => {
+                    // callable type over the renumbered tuple, in a run-time type test
+                    let f = fresh("fc");
+                    let w = fresh("w");
+                    defs.push(format!("{f} = #{cel}[{inner}] {{ $.0 }}"));
+                    defs.push(format!("{w} = {} {{ | =0 => &{f} | 5 }}", r.range(0, 1)));
+                    let v = fresh("zv");
+                    defs.push(format!("{v} = {w} {{ | =('int)i => i | =(#{cel}[{inner}] -> {inner})g => {cel}[{lit}] g }}"));
+                    parts.push(v);
+                    feats.push("zoo:callable-type-test");
+                }
+                5 => {
+                    // recursive type (Cycle) with a tail-recursive consumer and a type test
+                    let l = fresh("lz");
+                    front.push(format!("'{l} = N{a} | K{a}[{cel}[{inner}], ^]"));
+                    let f = fresh("cnt");
+                    defs.push(format!(
+                        "{f} = #['{l}, 'int] {{ | =[N{a}, acc] => acc | =[K{a}[_, t], acc] => [t, [acc, 1] __integer_add__] ^ }}"
+                    ));
+                    let v = fresh("lv");
+                    defs.push(format!(
+                        "{v} = {} {{ | =0 => K{a}[{cel}[{lit}], K{a}[{cel}[{lit}], N{a}]] | 5 }}",
+                        r.range(0, 1)
+                    ));
+                    parts.push(format!("{v} {{ | =('{l})l => [l, 0] {f} | =('int)i => i }}"));
+                    feats.push("zoo:recursive-type");
+                }
+                6 => {
+                    // generic function (Variable) used at two types
+                    let f = fresh("idz");
+                    defs.push(format!("{f} = #<'t>{cel}['t] {{ $.0 }}"));
+                    parts.push(format!("{cel}[{lit}] {f}"));
+                    parts.push(format!("{cel}[{other}] {f}"));
+                    feats.push("zoo:generic-function");
+                }
+                7 => {
+                    // union nested in a tuple field
+                    let u = fresh("uz");
+                    front.push(format!("'{u} = Box{a}[v: ({cel}[{inner}] | {other_ty})]"));
+                    let b = fresh("bz");
+                    defs.push(format!(
+                        "{b} = {} {{ | =0 => Box{a}[v: {cel}[{lit}]] | =1 => Box{a}[v: {other}] | 5 }}",
+                        r.range(0, 2)
+                    ));
+                    parts.push(format!("{b} {{ | =('{u})b => 1 | =('int)i => i }}"));
+                    feats.push("zoo:union-in-field");
+                }
+                8 => {
+                    // partial type with TWO fields, one of them itself partial
+                    let h = fresh("hx");
+                    front.push(format!("'{h} = (x: {cel}[{inner}], y: (z: {cel}[{inner}]))"));
+                    let f = fresh("fp");
+                    defs.push(format!(
+                        "{f} = #({a}[x: {cel}[{inner}], y: {a}i[z: {cel}[{inner}]]] | {a}[x: {other_ty}, y: 'int]) {{ ='{h} => 1 | 0 }}"
+                    ));
+                    parts.push(format!("{a}[x: {cel}[{lit}], y: {a}i[z: {cel}[{lit}]]] {f}"));
+                    parts.push(format!("{a}[x: {other}, y: 3] {f}"));
+                    feats.push("zoo:nested-partial-type-test");
+                }
+                10 => {
+                    // resource type in a run-time type test (no resource exists; the type is reachable)
+                    let f = fresh("rf");
+                    defs.push(format!("{f} = #(\\File | {cel}[{inner}]) {{ | =(\\File) => 1 | ={cel}[n] => n }}"));
+                    parts.push(format!("{cel}[{lit}] {f}"));
+                    feats.push("zoo:resource-type-test");
+                }
+                11 => {
+                    // 'ref inside the renumbered tuple
+                    let v = fresh("rv");
+                    defs.push(format!("{v} = {} {{ | =0 => R{cel}[[] %ref] | 5 }}", r.range(0, 1)));
+                    parts.push(format!("{v} {{ | =(R{cel}['ref]) => 1 | =('int)i => i }}"));
+                    feats.push("zoo:ref-type-test");
+                }
+                12 => {
+                    // partial type over a resource type
+                    let h = fresh("hr");
+                    front.push(format!("'{h} = (x: \\File)"));
+                    let f = fresh("rf");
+                    defs.push(format!("{f} = #({a}[x: \\File] | {a}[x: {inner}]) {{ | ='{h} => 1 | 2 }}"));
+                    parts.push(format!("{a}[x: {lit}] {f}"));
+                    feats.push("zoo:partial-over-resource");
+                }
+                _ => {
+                    zoo_process = true;
+                    defs.push(format!("classz = #(@{cel}[{inner}] | 'int) {{ | =(@{cel}[{inner}]) => 1 | ='int => 2 }}"));
+                    defs.push(format!("wz = #{{ c = !#{cel}[{inner}], c.0 }}"));
+                    zoo_lit = format!("{cel}[{lit}]");
+                }
+            }
+        }
+    }
+    // final expression
     for _ in 0..(1 + r.usize(3)) {
         parts.push(r.pick(&ints).clone());
     }
@@ -656,7 +814,13 @@ fn gen_program(r: &mut Rng) -> Gen {
     }
     let mut body = format!("[{}]", parts.join(", "));
     // concurrency inside the body
-    match r.below(12) {
+    let conc = if zoo_process { 99 } else { r.below(12) };
+    match conc {
+        99 => {
+            // process type over the renumbered tuple in a run-time type test on a bare pid
+            body = format!("w = @wz, c = &w classz, {zoo_lit} w, r = !w, [c, r, {}]", parts.join(", "));
+            feats.push("zoo:process-type-test");
+        }
         2 => {
             // a BARE process value reaches a run-time type test; the spawning function's receive
             // ('int) and result (a tuple / a Str / an int) types differ or coincide at random
@@ -677,8 +841,8 @@ fn gen_program(r: &mut Rng) -> Gen {
         }
         4 => {
             // F13 shape, but the child returns something other than what it receives
-            defs.insert(0, "'pr = @'int".to_string());
-            defs.insert(1, "'par = @'pr".to_string());
+            front.push("'pr = @'int".to_string());
+            front.push("'par = @'pr".to_string());
             let tail = *r.pick(&["[!'int, 1]", "Got[!'int]", "!'int"]);
             body = format!(
                 "g = #'par {{ =parent, &. parent, {tail} }}, me = &., p = &me @g, !#'pr =q, {} q, r = !p, [r, {}]",
@@ -707,8 +871,8 @@ fn gen_program(r: &mut Rng) -> Gen {
         }
         1 => {
             // typed receive of a process value (the F13 shape, local to the body)
-            defs.insert(0, "'pr = @'int".to_string());
-            defs.insert(1, "'par = @'pr".to_string());
+            front.push("'pr = @'int".to_string());
+            front.push("'par = @'pr".to_string());
             body = format!(
                 "g = #'par {{ =parent, &. parent, !'int }}, me = &., p = &me @g, !#'pr =q, {} q, r = !p, [r, {}]",
                 r.pick(&ints),
@@ -718,7 +882,10 @@ fn gen_program(r: &mut Rng) -> Gen {
         }
         _ => {}
     }
-    Gen { defs, body, features: feats }
+    let mut all = front;
+    all.extend(dead_first);
+    all.extend(defs);
+    Gen { defs: all, body, features: feats }
 }
 
 /// Does this bytecode (from `entry`) stay on the sync path: no cold instruction, only pure builtins?
@@ -844,6 +1011,74 @@ struct CaseReport {
 }
 
 /// All packaging variants of one program `p` with entry `e`. `label` identifies the case in replays.
+/// Well-formedness of a bytecode's type tables, checked on every packaging OUTPUT before it is executed:
+/// every type id / tuple id carried by a type or a tuple field is in range, and the reference graph
+/// (types ∪ tuples) is acyclic — recursion is only ever expressed by `Cycle(depth)` leaves. A table that
+/// fails this makes `import_type` / the compatibility walk recurse without end (stack overflow, which no
+/// `catch_unwind` survives), so such an output is reported and NOT executed.
+fn type_table_defect(bc: &Bytecode) -> Option<String> {
+    let nt = bc.types.len();
+    let nu = bc.tuples.len();
+    // node k < nt: type k; node nt + j: tuple j
+    let mut succ: Vec<Vec<usize>> = vec![vec![]; nt + nu];
+    for (i, t) in bc.types.iter().enumerate() {
+        let mut tys: Vec<usize> = vec![];
+        match t {
+            Type::Tuple(u) => {
+                if *u >= nu {
+                    return Some(format!("types[{i}] = {t:?}: tuple id {u} out of range ({nu} tuples)"));
+                }
+                succ[i].push(nt + *u);
+            }
+            Type::Partial { fields, .. } => tys.extend(fields.iter().map(|(_, t)| *t)),
+            Type::Callable { parameter, result, receive } => tys.extend([*parameter, *result, *receive]),
+            Type::Union(ids) => tys.extend(ids.iter().copied()),
+            Type::Process { send, receive } => tys.extend(send.iter().chain(receive.iter()).copied()),
+            _ => {}
+        }
+        for x in tys {
+            if x >= nt {
+                return Some(format!("types[{i}] = {t:?}: type id {x} out of range ({nt} types)"));
+            }
+            succ[i].push(x);
+        }
+    }
+    for (j, u) in bc.tuples.iter().enumerate() {
+        for (_, x) in &u.fields {
+            if *x >= nt {
+                return Some(format!("tuples[{j}] ({:?}): field type id {x} out of range ({nt} types)", u.name));
+            }
+            succ[nt + j].push(*x);
+        }
+    }
+    // iterative three-colour DFS
+    let mut colour = vec![0u8; nt + nu];
+    for root in 0..(nt + nu) {
+        if colour[root] != 0 {
+            continue;
+        }
+        let mut stack: Vec<(usize, usize)> = vec![(root, 0)];
+        colour[root] = 1;
+        while let Some((n, k)) = stack.pop() {
+            if k < succ[n].len() {
+                stack.push((n, k + 1));
+                let m = succ[n][k];
+                if colour[m] == 1 {
+                    let name = |x: usize| if x < nt { format!("types[{x}] = {:?}", bc.types[x]) } else { format!("tuples[{}]", x - nt) };
+                    return Some(format!("reference cycle without a Cycle leaf: {} refers (transitively) to itself through {}", name(m), name(n)));
+                }
+                if colour[m] == 0 {
+                    colour[m] = 1;
+                    stack.push((m, 0));
+                }
+            } else {
+                colour[n] = 2;
+            }
+        }
+    }
+    None
+}
+
 fn packaging_case(cx: &mut Ctx, r: &mut Rng, label: &str, src: &str, p: &Bytecode, e: usize) -> CaseReport {
     let mut rep = CaseReport::default();
     let tp = tables_of(p);
@@ -921,6 +1156,19 @@ fn packaging_case(cx: &mut Ctx, r: &mut Rng, label: &str, src: &str, p: &Bytecod
         let a = cx.model.ask(&format!("(shake {e})"));
         if a.starts_with("equal") && a.contains(&format!("entry={se} ")) && a.contains("validate=true") && a.contains("idempotent=true") {
             cx.ev.hit("shake:model-equals-tree_shake");
+            // coverage of the sweep's type rewriting: per kept type whose own index moved (m) and/or whose
+            // contained ids were rewritten (w), by constructor
+            if let Some(tok) = a.split_whitespace().find_map(|w| w.strip_prefix("renumbered=")) {
+                for t in tok.split(',').filter(|t| *t != "-" && !t.is_empty()) {
+                    let (ctor, flags) = t.split_once(':').unwrap_or((t, ""));
+                    if flags.contains('m') {
+                        cx.ev.hit(&format!("shake:renumbered:{ctor}:moved"));
+                    }
+                    if flags.contains('w') {
+                        cx.ev.hit(&format!("shake:renumbered:{ctor}:contents-rewritten"));
+                    }
+                }
+            }
         } else {
             cx.ev.hit("shake:model-differs");
             cx.ev.violation(
@@ -931,6 +1179,23 @@ fn packaging_case(cx: &mut Ctx, r: &mut Rng, label: &str, src: &str, p: &Bytecod
             );
         }
     }
+    let input_defect = type_table_defect(p);
+    if input_defect.is_some() {
+        // never seen; if a front end ever emits such tables the guard below must not raise a false alarm
+        cx.ev.hit("shake:input-type-table-ill-formed");
+    }
+    if let (None, Some(defect)) = (&input_defect, type_table_defect(&shaken)) {
+        cx.ev.hit("shake:output-type-table-ill-formed");
+        cx.ev.violation(
+            "path=shake kind=output-type-table-ill-formed",
+            &format!("{label}: tree_shake produced a program whose type tables are ill-formed (not executed): {}", clip(&defect)),
+            json!({"broken": "a tree-shaken program is a well-formed program (every id in range, no reference cycle): tree_shake output", "source": src, "entry": e, "defect": defect}),
+            true,
+        );
+        rep.outcomes.push(("shaken".into(), format!("ill-formed-type-table:{}", clip(&defect))));
+        return rep;
+    }
+    cx.ev.hit("shake:output-type-table-well-formed");
     cx.ev.add("shake:functions-dropped", (p.functions.len() - shaken.functions.len()) as u64);
     cx.ev.add("shake:types-dropped", (p.types.len() - shaken.types.len()) as u64);
     cx.ev.add("shake:constants-dropped", (p.constants.len() - shaken.constants.len()) as u64);
@@ -1409,8 +1674,14 @@ fn main() {
         let in_place = format!("{},\nzz = #{{ {} }},\nzz", g.defs.join(",\n"), g.body);
         let as_fn = format!("{},\n#{{ {} }}", g.defs.join(",\n"), g.body);
         let label = format!("gen#{gi}");
+        if std::env::var("VERIF_DEBUG").is_ok() {
+            eprintln!("GEN {gi} {}", in_place.replace('\n', " "));
+        }
         let Some((p, e)) = compile(&mut cx, &in_place, &no_modules) else {
             cx.ev.hit("gen:rejected");
+            if std::env::var("VERIF_DEBUG").is_ok() {
+                eprintln!("REJECTED gen#{gi}: {in_place}\n  {:?}", compile_source(&in_place, &no_modules, cx.b).err().map(|e| format!("{e:?}").chars().take(300).collect::<String>()));
+            }
             continue;
         };
         let mut rep = packaging_case(&mut cx, &mut r, &label, &in_place, &p, e);
@@ -1454,6 +1725,22 @@ fn main() {
     }
 
     let Ctx { model, mut ev, pool, .. } = cx;
+    // which type constructors were never renumbered by a sweep in this run (moved, and — for those that
+    // carry ids — contents rewritten); expected: none
+    {
+        let mut missing: Vec<String> = vec![];
+        for c in ["int", "bin", "ref", "tuple", "partial", "callable", "cycle", "union", "process", "resource", "var"] {
+            if ev.counters.get(&format!("shake:renumbered:{c}:moved")).copied().unwrap_or(0) == 0 {
+                missing.push(format!("{c}:moved"));
+            }
+        }
+        for c in ["tuple", "partial", "callable", "union", "process"] {
+            if ev.counters.get(&format!("shake:renumbered:{c}:contents-rewritten")).copied().unwrap_or(0) == 0 {
+                missing.push(format!("{c}:contents-rewritten"));
+            }
+        }
+        ev.set_extra("type_constructors_never_renumbered", json!(missing));
+    }
     ev.set_extra("model_requests", json!(model.requests));
     ev.set_extra("merge_history_pool", json!(pool.len()));
     ev.set_extra("programs", json!(ev.evaluations));
